@@ -11,7 +11,7 @@ import json
 import os
 import subprocess
 
-from vlib import build, cloud, runs, slevel
+from vlib import aux, build, cloud, runs, slevel
 
 PASSPHRASES = ['pass phrase "quoted" ü', "simple", " leading and trailing ", "quo'te\"s $HOME `x` \\n", "пароль 密码 🔑", "-starts-with-dash", "a" * 200]
 SHIM_DIR = os.path.join(build.VERIF, "tools", "shimgpg")
@@ -56,11 +56,15 @@ class Scene:
     def run(self, mode, limit=None, exe=None, timeout=300):
         self.n += 1
         prefix = None
+        sched_env = {}
         if mode.startswith("readfail"):
-            # the k-th read of the first backup's data.tar.zst fails with EIO while the upload archives it (real gpg, recorded)
+            # the k-th read of the first backup's data.tar.zst fails with EIO while the upload archives it (real gpg, recorded).  The failure
+            # is produced inside the vsb process by the LD_PRELOAD interposer: under `strace -f` the python stand-in for gpg loses output
+            # (observed: holes of whole 8 KiB blocks), which has nothing to do with vsb.
             k = int(mode.split(":")[1])
             victim = os.path.join(self.st, self.group, self.backups[0], "data.tar.zst")
-            prefix = ["strace", "-f", "-o", self.sb.path("strace-readfail.txt"), "-e", "trace=read", "-P", victim, "-e", "inject=read:error=EIO:when=%d" % k]
+            self.sched_log = self.sb.path("sched-readfail-%d.log" % self.n)
+            sched_env = {"LD_PRELOAD": aux.ensure_faketime() + ":" + aux.ensure_sched(), "VERIF_SCHED": victim + "|read,%d,fail,0" % k, "VERIF_SCHED_LOG": self.sched_log}
             mode_env = "tee"
         else:
             mode_env = mode
@@ -68,6 +72,7 @@ class Scene:
         os.makedirs(gd)
         emu = cloud.Emu(self.sb.path("emu%d" % self.n), init=self.init)
         env = {"PATH": SHIM_DIR + ":" + os.environ["PATH"], "VERIF_GPG_DIR": gd, "VERIF_GPG_MODE": mode_env, "VERIF_REAL_GPG": cloud.REAL_GPG}
+        env.update(sched_env)
         if limit:
             env["VSB_VERIF_DROPBOX_MAX_REQUEST_SIZE"] = str(limit)
         try:
@@ -221,8 +226,8 @@ def one(ctx, rng, provider, passphrase, big, modes, exe=None):
                 ctx.count("provider." + provider)
                 ctx.count("mode." + mode.split(":")[0])
                 if mode.startswith("readfail"):
-                    tfp = sb.path("strace-readfail.txt")
-                    if not (os.path.exists(tfp) and "(INJECTED)" in open(tfp, errors="replace").read()):
+                    lg = getattr(sc, "sched_log", None)
+                    if not (lg and os.path.exists(lg) and "fail" in open(lg).read()):
                         ctx.count("mode.readfail-not-reached")
                         continue
                 if provider == "dropbox":
